@@ -55,6 +55,10 @@ def main():
         pipeline.__enter__()
         # 1. translators: regenerate Lean from the current source
         gen_info = G.generate_all()
+        for e in gen_info.pop("errors", []):
+            broken.append({"kind": "translator", "translator": e["translator"], "error": e["error"],
+                           "note": "the current source is outside the subset this translator understands; its previous "
+                                   "output (generated from an earlier tree) was left in place for the build"})
         res.add_cov(generated=gen_info)
         # 2. proofs
         ok, out = C.lake_build(["ArgoVerif.Props." + prop, "driver"])
